@@ -69,7 +69,7 @@ pub fn rms(data: &[u8]) -> c11_core::Case {
     while !u.is_empty() && ops.len() < 600 {
         let sel = idx(&mut u, 18);
         if sel == 0 {
-            ops.push(c11_core::Op::Reset);
+            ops.push(if flag(&mut u) { c11_core::Op::Reset } else { c11_core::Op::CloneSwap });
             continue;
         }
         let quiet = idx(&mut u, 4) == 0;
@@ -106,7 +106,9 @@ pub fn osc(data: &[u8]) -> c17::OscCase {
     let mut hz = Vec::new();
     for _ in 0..n {
         let step = if exact {
-            if tiny {
+            if tiny && rate >= 1.0 && idx(&mut u, 2) == 0 {
+                f64::from_bits(1 + idx(&mut u, 1 << 30) as u64)
+            } else if tiny {
                 idx(&mut u, 1 << 20) as f64 * 2f64.powi(-64)
             } else {
                 idx(&mut u, 1 << 20) as f64 / (1u64 << idx(&mut u, 21)) as f64
@@ -137,7 +139,7 @@ pub fn osc(data: &[u8]) -> c17::OscCase {
 /// C18 — sinc interpolation
 pub fn sinc(data: &[u8]) -> c18::Case {
     let mut u = Unstructured::new(data);
-    let ft = c18::FTS[idx(&mut u, 5)];
+    let ft = c18::FTS[idx(&mut u, 6)];
     let depth = 1 + idx(&mut u, 16);
     let array_storage = flag(&mut u);
     let mode = [c18::Mode::Transparent, c18::Mode::Linearity, c18::Mode::Constant, c18::Mode::Reset, c18::Mode::RandomRatio][idx(&mut u, 5)];
@@ -158,6 +160,11 @@ pub fn sinc(data: &[u8]) -> c18::Case {
     let lb = idx(&mut u, 6 * depth + 1);
     let mut a: Vec<f64> = (0..la).map(|_| unit(&mut u)).collect();
     let mut b: Vec<f64> = (0..lb).map(|_| unit(&mut u)).collect();
+    let ztail = if idx(&mut u, 3) == 0 { idx(&mut u, 2 * depth + 2) } else { 0 };
+    let la_ = a.len();
+    for v in a.iter_mut().skip(la_.saturating_sub(ztail)) {
+        *v = 0.0;
+    }
     if mode == c18::Mode::Linearity {
         for v in a.iter_mut().chain(b.iter_mut()) {
             *v *= 0.5;
@@ -168,7 +175,7 @@ pub fn sinc(data: &[u8]) -> c18::Case {
             }
         }
     }
-    c18::Case { ft, depth, array_storage, mode, a, b, scale_pow, xs, ratio, gain, hz_rate }
+    c18::Case { ft, depth, array_storage, mode, a, b, scale_pow, xs, ratio, gain, hz_rate, full_scale: ztail % 2 == 1 }
 }
 
 /// C19 — envelope follower histories
